@@ -792,18 +792,51 @@ func (e *Engine) applyContractSig(st *State, fr *Frame, x *ssa.Call, name string
 	// moment: the guarded state of the receiver is unknown before it (other goroutines) ...
 	var atomicPre map[string]*Term
 	var atomicRecv *VPtr
-	var atomicGuards []guardInfo
+	type guardedObj struct {
+		ref *Term
+		g   guardInfo
+	}
+	var atomicObjs []guardedObj
 	if len(spec.Atomic) > 0 && len(args) > 0 {
 		if rp, ok := args[0].(VPtr); ok && rp.L != nil && rp.L.Kind == LHeap && len(rp.L.Path) == 0 {
-			gs := e.guardsFor(rp.Elem)
-			if len(gs) > 0 {
-				for _, g := range gs {
-					gl := g
-					if n, ok := rp.Elem.(*types.Named); ok {
-						gl.typ = n
+			for _, g := range e.guardsFor(rp.Elem) {
+				gl := g
+				if n, ok := rp.Elem.(*types.Named); ok {
+					gl.typ = n
+				}
+				atomicObjs = append(atomicObjs, guardedObj{rp.L.Ref, gl})
+			}
+			if len(atomicObjs) == 0 {
+				// the guarded structure may hang behind a pointer field of the receiver (Cache.Map *sync.Map)
+				if stt, ok := rp.Elem.Underlying().(*types.Struct); ok {
+					for i := 0; i < stt.NumFields(); i++ {
+						pt, ok := stt.Field(i).Type().Underlying().(*types.Pointer)
+						if !ok {
+							continue
+						}
+						gs := e.guardsFor(pt.Elem())
+						if len(gs) == 0 {
+							continue
+						}
+						fl := *rp.L
+						fl.Path = []pathStep{{Field: i}}
+						fv, ok := e.load(st, &fl).(VPtr)
+						if !ok || fv.L == nil || fv.L.Kind != LHeap {
+							continue
+						}
+						for _, g := range gs {
+							gl := g
+							if n, ok := pt.Elem().(*types.Named); ok {
+								gl.typ = n
+							}
+							atomicObjs = append(atomicObjs, guardedObj{fv.L.Ref, gl})
+						}
 					}
-					e.havocGuarded(st, rp.L.Ref, gl)
-					atomicGuards = append(atomicGuards, gl)
+				}
+			}
+			if len(atomicObjs) > 0 {
+				for _, o := range atomicObjs {
+					e.havocGuarded(st, o.ref, o.g)
 				}
 				// the caller's lock invariant describes the shared structure at every instant it is unlocked
 				if root := st.frames[0]; root.spec != nil {
@@ -864,8 +897,8 @@ func (e *Engine) applyContractSig(st *State, fr *Frame, x *ssa.Call, name string
 	}
 	if atomicRecv != nil {
 		// ... and related to the state after it only by the atomic clauses
-		for _, gl := range atomicGuards {
-			e.havocGuarded(st, atomicRecv.L.Ref, gl)
+		for _, o := range atomicObjs {
+			e.havocGuarded(st, o.ref, o.g)
 		}
 		ac := &specCtx{e: e, st: st, env: env, heaps: st.heaps, oldHeaps: atomicPre, pkg: pre.pkg, iters: e.freshIters(st, name)}
 		for _, a := range spec.Atomic {
@@ -1010,7 +1043,7 @@ func (e *Engine) havocRegionR(st *State, fr *Frame, r region, in ssa.Instruction
 	}
 }
 
-var callLogBuiltins = []string{"called", "notCalled", "callCount", "callArg", "callRes", "callSeq", "callFn"}
+var callLogBuiltins = []string{"called", "notCalled", "callCount", "callArg", "callRes", "callSeq", "callFn", "callsTotal"}
 
 func mentions(x Expr, names []string) bool {
 	found := false
